@@ -26,21 +26,24 @@ theorem pipelineLoop_translated (o : Oracle) (retry i : Nat) :
   cases hg : (o i).get <;> cases hr : (o i).res <;> cases hc : (o i).ctxDone <;>
     by_cases h : retry < 5 <;> simp [h]
 
-theorem quicLoop_translated (o : Oracle) (retry i : Nat) :
-    quicLoop o retry i =
-      match (o i).get with
+theorem quicLoop_translated (o : Oracle) (retry i : Nat) (forgot : Bool) :
+    quicLoop o retry i forgot =
+      let a := if forgot then forcedDial (o i) else o i
+      match a.get with
       | .poolErr => ⟨none, i + 1⟩
       | .dialErr => ⟨none, i + 1⟩
       | g =>
-        match (o i).res with
+        match a.res with
         | some r => ⟨some r, i + 1⟩
         | none =>
-          if Translated.quic_retryCond (g == .fresh) retry (o i).ctxDone then quicLoop o (retry + 1) (i + 1)
+          if Translated.quic_retryCond (g == .fresh) retry a.ctxDone then quicLoop o (retry + 1) (i + 1) a.connErr
           else ⟨none, i + 1⟩ := by
   rw [quicLoop]
   unfold Translated.quic_retryCond
-  cases hg : (o i).get <;> cases hr : (o i).res <;> cases hc : (o i).ctxDone <;>
-    by_cases h : retry < 5 <;> simp [h]
+  generalize (if forgot then forcedDial (o i) else o i) = a
+  cases a with
+  | mk g r c f fd ce =>
+    cases g <;> cases r <;> cases c <;> by_cases h : retry < 5 <;> simp [h]
 
 theorem reuseLoop_translated (o : Oracle) (retry i : Nat) :
     reuseLoop o retry i =
